@@ -593,7 +593,14 @@ pub fn gen_c16(tier: &str, seed: u64, out: &mut Vec<String>) {
                 }
             }
             6 => {
-                let k = rng.below(flen as u64 + 1) as usize;
+                // cut anywhere — and, half of the time, at the places where a reader changes gear: inside and right after the
+                // identification bytes, the file header, each program header, the section headers
+                let k = if rng.chance(1, 2) {
+                    let marks = [0usize, 1, 3, 4, 5, 6, 7, 8, 15, 16, 17, 0x18, 0x20, 0x3f, 0x40, 0x41, lay.phoff, lay.phoff + 1, lay.phoff + 55, lay.phoff + 56, lay.phoff + 56 * lay.phnum, lay.shoff, lay.shoff + 63, lay.shoff + 64, flen - 1];
+                    (*rng.pick(&marks)).min(flen)
+                } else {
+                    rng.below(flen as u64 + 1) as usize
+                };
                 f.truncate(k);
             }
             7 => {
